@@ -73,3 +73,16 @@ CHECKS["C07"] = dict(
     outside=["elapsed times outside the listed windows (float pipeline is decided per 2^20-ns window by cvc5)", "sender interceptor tick loop and multi-stream wiring", "report before any packet (zero reference time)"],
     assumptions=["float64->uint32 conversion modelled as go1.24/amd64 executes it (cvttsd2si, low 32 bits)", "time.Time modelled as 96-bit nanosecond count"],
 )
+
+CHECKS["C06"] = dict(
+    jobs=[dict(pkg="pkg/report", entry="HC06Jitter", params=dict(lastbase=lb, dbase=db, tsbits=12, elbits=20, jbits=20), optional_covers=["timestamp wrapped between packets"])
+          for (lb, db) in ((4294967000, 0), (0, 0), (2147483000, 0), (100000, 4294960000), (5000, 2147481000))] + [
+        dict(pkg="pkg/report", entry="HC06Loss", params=dict(packets=3, fwd=3, back=3), thorough=dict(params=dict(packets=4, fwd=4, back=4), timeout=3400)),
+        dict(pkg="pkg/report", entry="HC06SR", params=dict(elbase=0)),
+        dict(pkg="pkg/report", entry="HC06SR", params=dict(elbase=65535999000000)),
+    ],
+    bounds=dict(quick="jitter: one update from an arbitrary state (jitter any multiple of 1/16 < 65536, elapsed < 2^20 ns) for 5 windows of (last timestamp, timestamp step) of 2^12 x 2^12 values incl. both directions of the 2^32 wrap and the 2^31 half-range; loss accounting: 3 packets (jumps +-3, any base incl. sequence wrap), report after a symbolic prefix and at the end, bitmap of 64 packets (size=1 word, same code as 128 words); LSR/DLSR: two SRs, elapsed window [0,2^20) ns at base 0 and at the 2^32-unit wrap of DLSR",
+                thorough="4 packets, jumps +-4"),
+    outside=["production history size 8192 packets (struct built with 1 word)", "more than 4 packets per history / jumps >4", "packets arriving for an interval that was already reported", "receiver interceptor tick loop"],
+    assumptions=["float64->uintN conversions as go1.24/amd64", "FP queries decided by cvc5/z3 portfolio, one-shot"],
+)
